@@ -157,7 +157,8 @@ struct Conn
 			for (auto const& a : n.ips)
 			{
 				std::vector<HopSpec> out;
-				out.push_back(queue_hop(0, plan.c(q + "olat"), 0));
+				// "nohops": nothing at all between the sockets (every packet is delivered synchronously)
+				if (!plan.c("nohops")) out.push_back(queue_hop(0, plan.c(q + "olat"), 0));
 				if (n.nat != 0 && a.is_v4())
 				{
 					if (n.nat == 3)
@@ -170,10 +171,11 @@ struct Conn
 					else { HopSpec h; h.kind = HopSpec::Pass; out.push_back(h); } // synchronous pass-through in its place
 				}
 				net.out_spec[a] = out;
-				net.in_spec[a] = {queue_hop(0, plan.c(q + "ilat"), 0)};
+				if (!plan.c("nohops")) net.in_spec[a] = {queue_hop(0, plan.c(q + "ilat"), 0)};
+				else net.in_spec[a] = {};
 			}
 		}
-		net.core_spec = {queue_hop(0, plan.c("corelat"), 0)};
+		if (!plan.c("nohops")) net.core_spec = {queue_hop(0, plan.c("corelat"), 0)};
 	}
 
 	void go()
@@ -692,6 +694,7 @@ struct ConnEngine : Engine
 			p.cfg[q + "ilat"] = rng.pick(std::vector<int64_t>{0, 1000, 1000000, 5000000, 20000000});
 		}
 		p.cfg["corelat"] = rng.pick(std::vector<int64_t>{0, 1000000, 10000000, 50000000});
+		p.cfg["nohops"] = rng.chance(0.08) ? 1 : 0;
 		int const nc = int(rng.range(1, k_max_clients));
 		int const na = int(rng.range(1, k_max_acc));
 		p.cfg["clients"] = nc;
